@@ -184,6 +184,7 @@ N, L = "gcount('ncalls')", "(len(self._modifiers) + len(self._steps))"
 def single_process_reads(c):
     c.types(self=SingleT, infiles=ObjT("InputFiles"), progress=OptT(ObjT("Progress")), reader=SeqT(Record))
     c.returns(TupT(Int, Int, OptT(Int)))
+    c.runtime = {"module": "cpipe", "name": "process_reads"}
     c.spec(log_spec)
     c.ghost_seqs = ["c_step", "c_obj", "c_in", "c_in2", "c_none", "c_out", "c_out2", "chain_start"]
     c.local_types["read"] = OptT(Record)
@@ -224,6 +225,7 @@ def paired_process_reads(c):
     returned), and a None ends the chain for both."""
     c.types(self=PairedPipeT, infiles=ObjT("InputFiles"), progress=OptT(ObjT("Progress")), reader=SeqT(PairT))
     c.returns(TupT(Int, Int, OptT(Int)))
+    c.runtime = {"module": "cpipe", "name": "process_reads"}
     c.modifies = ["self._infiles", "self._reader"]
     c.spec(log_spec)
     c.ghost_seqs = ["c_step", "c_obj", "c_in", "c_in2", "c_none", "c_out", "c_out2", "chain_start"]
